@@ -22,7 +22,7 @@
    whole residual gap between scanner.Find and the search without windows (windows_eq_ideal). *)
 From Coq Require Import List NArith ZArith Bool.
 From GoPdf.Base Require Import Bytes Res.
-From GoPdf.C20 Require Import SeqScan SeqScanProofs MarkerFacts WindowProofs WindowTheorems FastScan.
+From GoPdf.C20 Require Import SeqScan SeqScanProofs MarkerFacts WindowProofs WindowTheorems FastScan IntObjects.
 Import ListNotations.
 
 (* Documentation: BEFORE fix F24 scanner.Find's `^` alternative matched at the beginning of
@@ -123,6 +123,48 @@ Theorem trailing_broken :
     co_broken o = true.
 Proof. exact trailing_broken_w. Qed.
 Print Assumptions trailing_broken.
+
+(* H-parse instantiated.  parse_int (IntObjects.v) is a concrete reader of indirect objects
+   whose value is an unsigned integer, `N G obj LF digits LF endobj` (int_chunk).  It satisfies
+   the three hypotheses the theorems make about the object parser, so these are jointly
+   satisfiable; the harness compares parse_int with scanner.ReadIndirectObject on integer
+   objects, on all their prefixes and with an end-of-line and arbitrary bytes appended. *)
+Theorem hparse_instance :
+  forall c, int_chunk c ->
+    chunk_parse_stable bytes parse_int c /\ chunk_prefix_fails bytes parse_int c
+    /\ forall s, parse_int s <> POther.
+Proof. exact (fun c H => conj (int_chunk_stable c H) (conj (int_chunk_prefix_fails c H) parse_int_class)). Qed.
+Print Assumptions hparse_instance.
+
+(* ... and for such objects prefix_complete and trailing_broken hold with no assumption about
+   the parser left *)
+Theorem prefix_complete_int_objects :
+  forall pre h cs tail i c n,
+    pre_ok pre h -> (h <= buf_size)%nat ->
+    tame (pre ++ flat bytes cs ++ tail) ->
+    (forall c', In c' cs -> chunk_scan_ok bytes c') ->
+    int_chunk c ->
+    nth_error cs i = Some c ->
+    (length pre + length (flat bytes (firstn i cs)) + length (ck_bytes bytes c) <= n)%nat ->
+    let data := firstn n (pre ++ flat bytes cs ++ tail) in
+    exists objs,
+      seq_scan (scan_windows data) (pc_of bytes parse_int data) = Ok objs
+      /\ In {| co_obj := chunk_marker_obj bytes (length pre + length (flat bytes (firstn i cs))) c;
+               co_broken := false; co_val := Some (ck_val bytes c) |} objs.
+Proof. exact prefix_complete_int. Qed.
+Print Assumptions prefix_complete_int_objects.
+
+Theorem trailing_broken_int_objects :
+  forall pre h cs1 c k objs o,
+    pre_ok pre h -> (h <= buf_size)%nat ->
+    int_chunk c -> (k < length (ck_bytes bytes c))%nat ->
+    let data := pre ++ flat bytes cs1 ++ firstn k (ck_bytes bytes c) in
+    tame data ->
+    seq_scan (scan_windows data) (pc_of bytes parse_int data) = Ok objs ->
+    In o objs -> fo_start (co_obj o) = (length pre + length (flat bytes cs1))%nat ->
+    co_broken o = true.
+Proof. exact trailing_broken_int. Qed.
+Print Assumptions trailing_broken_int_objects.
 
 (* checkObjects: Broken exactly when the parse did not succeed; it aborts only on other errors *)
 Theorem broken_iff_parse_failed :
@@ -232,3 +274,15 @@ Example trailer_ex :
                 {| ts_xstm := None; ts_trailerpos := 300; ts_trailer := TOk 1%N |};
                 {| ts_xstm := None; ts_trailerpos := 100; ts_trailer := TOk 0%N |} ] = Ok 1%N.
 Proof. reflexivity. Qed.
+
+(* "12 0 obj LF 345 LF endobj" is an integer chunk, and the reader reads it *)
+Example int_chunk_ex :
+  let c := {| ck_num := 12%N; ck_gen := 0%N;
+              ck_bytes := [49; 50; 32; 48; 32; 111; 98; 106; 10; 51; 52; 53; 10; 101; 110; 100; 111; 98; 106]%N;
+              ck_val := [51; 52; 53]%N |} in
+  int_chunk c /\ parse_int (ck_bytes bytes c ++ [10; 120]%N) = POk [51; 52; 53]%N
+  /\ parse_int (firstn 18 (ck_bytes bytes c)) = PMalformed.
+Proof.
+  split; [|split; reflexivity].
+  exists [49; 50]%N, [48]%N. repeat split; try discriminate; reflexivity.
+Qed.
